@@ -3,7 +3,7 @@
 Artifacts are keyed by a content hash of every input (sources, headers, flags), so a source edit in
 /repo always produces a new artifact and identical inputs are never compiled twice.
 """
-import hashlib, os, subprocess, sys, shutil, glob, json, time
+import hashlib, os, subprocess, sys, shutil, glob, json, time, threading
 from concurrent.futures import ThreadPoolExecutor
 
 REPO = os.environ.get('VERIF_REPO', '/repo')
@@ -28,6 +28,17 @@ FLAVOURS = {
 
 class BuildError(Exception):
     pass
+
+
+_CACHE_LOCK = threading.RLock()   # cached artefacts (asn1c, skeleton libs, driver objects) are built by one thread at a time
+
+
+def _locked(fn):
+    def w(*a, **kw):
+        with _CACHE_LOCK:
+            return fn(*a, **kw)
+    w.__name__ = fn.__name__
+    return w
 
 
 def sha(*parts):
@@ -120,6 +131,7 @@ def compiler_headers():
     return hs
 
 
+@_locked
 def asn1c(san=False):
     """Build the asn1c compiler from the current tree; returns path of the executable."""
     srcs = compiler_sources()
@@ -198,6 +210,7 @@ def skeleton_headers():
     return sorted(glob.glob(os.path.join(REPO, 'skeletons', '*.h')))
 
 
+@_locked
 def skel_lib(flavour='asan', defines=()):
     """Static library of the runtime skeletons for one flavour; returns (lib path, cflags, ldflags)."""
     cfl, ldf = FLAVOURS[flavour]
@@ -309,6 +322,7 @@ def cxx_check_headers(gen):
         raise BuildError('c++ header check failed:\n' + r.stderr.decode(errors='replace')[:3000])
 
 
+@_locked
 def drv_objects(names, flavour='asan', extra_cflags=(), defines=()):
     """Compile driver sources /verif/drv/<name>.c for a flavour (depends on skeleton headers)."""
     cfl, ldf = FLAVOURS[flavour]
